@@ -280,7 +280,9 @@ func rulesC11(c *Ctx) {
 				g := f.Graph()
 				guards := g.GuardsAt(g.VertexOf(call))
 				sid := c.Field(pM, "streamableServerConn", "sessionID")
-				ok := f.Name() == "(*streamableServerConn).servePOST" && hasAtom(guards, func(a Atom) bool { return a.Val && f.ObjOf(a.E) != nil && f.ObjOf(a.E) == flagSetUnderMethod(f, c.Obj(pM, "methodInitialize")) }) && hasAtom(guards, func(a Atom) bool {
+				ok := f.Name() == "(*streamableServerConn).servePOST" && hasAtom(guards, func(a Atom) bool {
+					return a.Val && f.ObjOf(a.E) != nil && f.ObjOf(a.E) == flagSetUnderMethod(f, c.Obj(pM, "methodInitialize"))
+				}) && hasAtom(guards, func(a Atom) bool {
 					x, y, op, isCmp := binaryCmp(a.E)
 					s, isC := f.ConstString(y)
 					return isCmp && op == token.NEQ && a.Val && f.IsField(x, sid) && isC && s == ""
@@ -368,6 +370,43 @@ func rulesC11(c *Ctx) {
 				c.Check(inc, "startPOST:stop-then-count", st, call, "stopping the timer is always followed by counting the POST")
 			}
 		}
+		// stopTimer (called when the session goes away) stops the timer and forgets it, unconditionally once it exists: a timer
+		// that stays in the field is re-armed by the endPOST of a request that was still in flight when the session closed
+		stp := c.Fn(pM, "sessionInfo", "stopTimer")
+		tg := stp.Graph()
+		okStop := false
+		for _, t := range tg.edgesWhere(func(a Atom) bool {
+			return AtomSaysNil(a, false, func(e ast.Expr) bool { return stp.IsField(e, timer) })
+		}) {
+			stops := func(v int) bool {
+				for _, call := range stp.AllCalls(tg.Node(v), false) {
+					if fn := stp.Callee(call); fn != nil && fn.Name() == "Stop" && fn.Pkg() != nil && fn.Pkg().Path() == "time" {
+						return true
+					}
+				}
+				return false
+			}
+			nils := func(v int) bool {
+				for _, w := range Writes(tg.Node(v), false) {
+					if stp.IsField(w.LHS, timer) && w.RHS != nil && isNilIdent(w.RHS) {
+						return true
+					}
+				}
+				return false
+			}
+			okStop = tg.allPathsPass(t, stops) && tg.allPathsPass(t, nils)
+			// the branch is entered on `timer != nil` alone
+			for _, w := range Writes(stp.Body, false) {
+				if stp.IsField(w.LHS, timer) && w.RHS != nil && isNilIdent(w.RHS) {
+					for _, a := range tg.GuardsAt(tg.VertexOf(w.Stmt)) {
+						if !isCompound(a.E) && !AtomSaysNil(a, false, func(e ast.Expr) bool { return stp.IsField(e, timer) }) {
+							okStop = false
+						}
+					}
+				}
+			}
+		}
+		c.Check(okStop, "stopTimer:stops-and-forgets", stp, nil, "when a timer exists, stopTimer always calls Stop and always sets the field to nil (whatever Stop returned)")
 		// the timer callback only closes the session
 		sp := c.Fn(pM, "StreamableHTTPHandler", "serveStatefulPOST")
 		af := c.Std("time", "", "AfterFunc")
@@ -395,7 +434,9 @@ func rulesC11(c *Ctx) {
 			okp := true
 			for _, x := range dg.Exits {
 				// every exit on the ok path passes Close
-				if hasAtom(dg.GuardsAt(x), func(a Atom) bool { return a.Val && del.ObjOf(a.E) != nil && del.ObjOf(a.E) == del.VarFromCall(lookup, 1) }) {
+				if hasAtom(dg.GuardsAt(x), func(a Atom) bool {
+					return a.Val && del.ObjOf(a.E) != nil && del.ObjOf(a.E) == del.VarFromCall(lookup, 1)
+				}) {
 					if ok2, _ := dg.DominatedBy(x, func(v int) bool { return v == cvs[0] }); !ok2 {
 						okp = false
 					}
